@@ -45,6 +45,10 @@ class Env(object):
     def abspath(self, path):
         out = list(self.owner)
         for p in path:
+            if isinstance(p, list) and p[0] == "itv":
+                lp, i = self.itvars[p[1]]
+                out = list(lp) + [i]
+                continue
             if isinstance(p, list) and p[0] == "idx":
                 i = self.itvars[p[1]][1] + (p[2] if len(p) > 2 else 0)
                 if i < 0:
@@ -391,11 +395,15 @@ def object_formula(env, abspath, softs=None):
             continue
         acc.append(stmts_formula(stmts, env.child(owner=abspath, itvars={}), softs))
     for fn, ch in obj["fields"].items():
+        if ch["k"] == "l" and ch.get("size_used") and ch["elem"][0] == "obj":
+            # a random-size list of objects cannot grow beyond the objects the user put in
+            sz, _, _ = env.leaf_term(abspath + (fn, "size"))
+            acc.append(z3.ULE(sz, z3.BitVecVal(len(ch["elems"]), 32)))
         if ch["k"] == "o":
             acc.append(object_formula(env, abspath + (fn,), softs))
         elif ch["k"] == "l" and ch["elem"][0] == "obj":
             for i in range(len(ch["elems"])):
-                acc.append(object_formula(env, abspath + (fn, i), softs))
+                acc.append(z3.Implies(size_guard(env, abspath + (fn,), i), object_formula(env, abspath + (fn, i), softs)))
     return z3.And(*acc) if acc else z3.BoolVal(True)
 
 
